@@ -68,6 +68,7 @@ func main() {
 	ex := NewExec(ld.Prog, lib, *prop)
 	ex.callSites = map[string][]string{}
 	ex.findSentinels()
+	ex.errs = append(ex.errs, lib.LintGhostFrames()...)
 	ex.ApplySchemas()
 	ex.checkImmutable()
 	fns := ex.targets(*only)
